@@ -6,7 +6,7 @@
    which the harness writes after evaluating `failures CacheCfg.cfg`. *)
 From Coq Require Import String List Bool.
 Import ListNotations.
-From FV.C19 Require Import Model Proofs.
+From FV.C19 Require Import Model Proofs ProofsToy.
 Open Scope string_scope.
 
 Section Statement.
@@ -113,7 +113,7 @@ Definition good_cfg : config := mkcfg
         ["incidence"; "adjacency"] ["volumes"];
     mke "make_positive" false ["volumes"] [("elements", None)] ["incidence"; "adjacency"] ["volumes"];
     mke "write_fistr" true [] [("settings", Some "solution_type")] [] [] ]
-  [ mkd "to_surface" ["adjacency"] false [] ].
+  [ mkd "to_surface" ["adjacency"] false [] [] ].
 
 Example good_cfg_ok : cfg_ok good_cfg = true.
 Proof. vm_compute. reflexivity. Qed.
@@ -134,13 +134,31 @@ Definition bad_cfg_no_clear : config := mkcfg (queries good_cfg)
 Definition bad_cfg_slot_key : config := mkcfg
   [ mkq "volumes" 0 None (Some ("volume", [])) ["mode"] [("nodes", None); ("elements", None)] [] [] ] [] [].
 Definition bad_cfg_share : config := mkcfg (queries good_cfg) (effects good_cfg)
-  [ mkd "to_polyhedron" [] true [] ].
+  [ mkd "to_polyhedron" [] true [] ["elemental_data"; "nodal_data"] ].
 
 Example bad_cfgs_rejected :
   cfg_ok bad_cfg_no_clear = false /\ cfg_ok bad_cfg_slot_key = false /\ cfg_ok bad_cfg_share = false /\
   tdiffers bad_cfg_no_clear [New 0; Query 0 "incidence" []; Effect 0 "remove_useless_nodes"; Query 0 "incidence" []] = true /\
   tdiffers bad_cfg_slot_key [New 0; Query 0 "volumes" [("mode", "linear")]; Query 0 "volumes" [("mode", "centroid")]] = true.
 Proof. vm_compute. repeat split; reflexivity. Qed.
+
+(* The section hypotheses are jointly satisfiable by a non-constant semantics,
+   for every accepted inventory: the toy semantics of Model.v (versions of the
+   fields read + relevant arguments) with arbitrary nested-call selection,
+   store decisions and derivation semantics is pure. *)
+Theorem C19_hypotheses_satisfiable : forall cfg, cfg_ok cfg = true ->
+  forall depsel stores epre dsem (h : list op) o q a qc ob,
+  let run := exec cfg tmesh tvalue (fun q a x _ => tsem cfg q a x) depsel (fun _ _ v => v) stores
+                  (fun q _ x => tbump (twrites_q cfg q) x) epre
+                  (fun e _ x => tbump (twrites_e cfg e) x) dsem
+                  (fun d x => tbump (twrites_d cfg d) x) tfresh h (init tmesh tvalue) in
+  world tmesh tvalue run o = Some ob -> find_q cfg q = Some qc ->
+  snd (step cfg tmesh tvalue (fun q a x _ => tsem cfg q a x) depsel (fun _ _ v => v) stores
+            (fun q _ x => tbump (twrites_q cfg q) x) epre
+            (fun e _ x => tbump (twrites_e cfg e) x) dsem
+            (fun d x => tbump (twrites_d cfg d) x) tfresh run (Query o q a))
+  = Some (tsem cfg q a (o_mesh tmesh ob)).
+Proof. exact toy_purity. Qed.
 
 Print Assumptions C19_purity.
 Print Assumptions C19_queries_preserve.
